@@ -69,6 +69,32 @@ def do_import(pid, n):
     json.dump(meta, open(os.path.join(dst, "meta.json"), "w"), indent=1)
     print(name, "kept")
 
+def do_reverify(name):
+    """Re-run the keep conditions for a change already under seeded/ (after a patch was rebased)."""
+    dst = os.path.join(HERE, "seeded", name)
+    patch, demo = os.path.join(dst, "patch.diff"), os.path.join(dst, "demo_test.go.txt")
+    meta = json.load(open(os.path.join(dst, "meta.json")))
+    rc, out = sh(f"git -C /repo apply --check {patch}", "/repo")
+    if rc != 0:
+        print(name, "patch does not apply to /repo HEAD with git apply:", out[-300:]); return
+    tmpdemo = tempfile.mktemp(suffix="_test.go"); shutil.copy(demo, tmpdemo)
+    d, repo = scratch(patch)
+    try:
+        rcs, out = sh("go build ./... && go test -vet=off -count=1 ./...", repo)
+        rc1, _ = demo_result(repo, tmpdemo, meta.get("race_demo", False))
+    finally:
+        shutil.rmtree(d, ignore_errors=True)
+    d, repo = scratch(None)
+    try:
+        rc0, _ = demo_result(repo, tmpdemo, meta.get("race_demo", False))
+    finally:
+        shutil.rmtree(d, ignore_errors=True)
+    os.remove(tmpdemo)
+    ok = rcs == 0 and rc1 != 0 and rc0 == 0
+    meta["reverified"] = {"stock_suite_exit_with_change": rcs, "demo_exit_with_change": rc1, "demo_exit_clean": rc0}
+    json.dump(meta, open(os.path.join(dst, "meta.json"), "w"), indent=1)
+    print(name, "reverified OK" if ok else f"REVERIFY FAILED stock={rcs} demo_with={rc1} demo_clean={rc0}")
+
 def first_lines(p):
     return " ".join(l.strip() for l in open(p).read().strip().splitlines()[:12])[:1200]
 
@@ -91,6 +117,11 @@ def main():
     a = sys.argv[1:]
     if a[0] == "import":
         do_import(a[1], int(a[2])); return
+    if a[0] == "reverify":
+        names = a[1:] or sorted(os.path.basename(p) for p in glob.glob(os.path.join(HERE, "seeded", "C*-*")))
+        with cf.ThreadPoolExecutor(6) as ex:
+            list(ex.map(do_reverify, names))
+        return
     tier, props, jobs = "quick", [], 4
     a = a[1:]
     while a and a[0].startswith("-"):
